@@ -1025,6 +1025,21 @@ pub fn stage_collisions(ctx: &mut Ctx, name: &str, which: &'static str) -> Resul
     ctx.stage(name, true, r)
 }
 
+/// g and var(x) have the same hash: combine each of them with the same partner z, one after the
+/// other in ONE environment (a result remembered under the operands' hashes would be handed out twice)
+fn same_partner_history(g: &W, x: &W) -> Check {
+    let z = W::Cube(vec![(7usize, true)]);
+    let mut steps = Vec::new();
+    for op in [refbdd::OP_AND, refbdd::OP_OR, refbdd::OP_XOR, refbdd::OP_IFF, refbdd::OP_IMP] {
+        for (l, r) in [(g, &z), (x, &z), (&z, x), (&z, g)] {
+            steps.push(W::Bin(op, Box::new(l.clone()), Box::new(r.clone())));
+        }
+    }
+    steps.push(W::Not(Box::new(g.clone())));
+    steps.push(W::Not(Box::new(x.clone())));
+    check_history(&steps)
+}
+
 fn check_collision_case(ops: &[W], which: &str) -> Check {
     let mut m = Ref::new();
     let xs: Vec<usize> = ops.iter().flat_map(|w| { let id = w.to_ref(&mut m); m.support(id).into_iter().collect::<Vec<_>>() }).collect();
@@ -1033,9 +1048,11 @@ fn check_collision_case(ops: &[W], which: &str) -> Check {
             "conn" => {
                 check_conn(f, &ops[2], &ops[3], false)?;
                 check_conn(&ops[3], f, &ops[2], false)?;
+                same_partner_history(&ops[2], &ops[3])?;
             }
             "canon" => {
                 check_conn(f, &ops[2], &ops[3], true)?;
+                same_partner_history(&ops[2], &ops[3])?;
             }
             "quant" => {
                 for v in [3usize, 1001, 1005] {
